@@ -3,3 +3,4 @@ pub mod leafdrv;
 pub mod privprops;
 pub mod pubprops;
 pub mod gadgetprops;
+pub mod parsers;
